@@ -135,6 +135,23 @@ def run(ctx):
         key = pyref.bip32_derive(pyref.bip39_seed(ph0, pw), [0x8000002C, 0x8000003C, 0x80000000, 0, 0])
         if r.cls != "ok" or r.stdout.decode().strip() != "0x%064x" % key:
             ctx.violation("cli-password-verbatim", dict(phrase=ph0, passphrase=pw, via="env" if rn.get("env") else "flag"), "0x%064x" % key, str(r)[:200])
+    # ... together with every kind of account selector (index, path; flag and variable; either order of the options)
+    sel_runs, sel_want = [], []
+    for pw in ("TREZOR", "pässwörd ①", " x "):
+        seed_ = pyref.bip39_seed(ph0, pw)
+        for sel, comps in ((["--account-index", "7"], [0x8000002C, 0x8000003C, 0x80000000, 0, 7]), (["--hd-path", "m/44'/60'/0'/0/7"], [0x8000002C, 0x8000003C, 0x80000000, 0, 7]),
+                           (["--hd-path", "m/0'/1"], [0x80000000, 1]), (["--hd-path", "m/5"], [5])):
+            key = pyref.bip32_derive(seed_, comps)
+            for args, env in ((["export", "--mnemonic", ph0, "--password", pw] + sel, None), (["export", "--mnemonic", ph0] + sel + ["--password", pw], None),
+                              (["export", "--mnemonic", ph0] + sel, dict(PASSWORD=pw)),
+                              (["export", "--mnemonic", ph0, "--password", pw], {("ACCOUNT_INDEX" if sel[0] == "--account-index" else "HD_PATH"): sel[1]})):
+                sel_runs.append(dict(args=args, env=env))
+                sel_want.append((pw, sel, "0x%064x" % key))
+    for rn, (pw, sel, w), r in zip(sel_runs, sel_want, ctx.cli(sel_runs)):
+        ctx.count("cli/password-with-selector")
+        ctx.distinct(("clipwsel", pw, tuple(rn["args"]), str(rn.get("env"))))
+        if r.cls != "ok" or r.stdout.decode().strip() != w:
+            ctx.violation("cli-password-with-selector", dict(op="hdwallet " + " ".join(rn["args"]), env=rn.get("env"), passphrase=pw, selector=sel), w, str(r)[:200])
     # CLI: --password reaches the seed (export differs with/without, equal for NFKD-equivalent spellings)
     ph = cases[5][1]
     res = ctx.cli([dict(args=["export", "--mnemonic", ph]), dict(args=["export", "--mnemonic", ph, "--password", "é"]),
